@@ -161,7 +161,7 @@ def gen_cfg(rng, combo=None, finite=None, n_max=12, allow_not_random=True, u=Non
         c0 = rng.choice((0.125, 0.5, 0.75, 1 - EPS))
         kw["c_grapa_0"] = c0
         kw["c_grapa_max"] = rng.choice((c0, 1 - EPS, c0 / 2, c0 / 4))   # also schedules that shrink the clipping scale
-        kw["c_grapa_grow"] = rng.choice((0, 0, 1, 10, 0.5))
+        kw["c_grapa_grow"] = rng.choice((0, 0, 1, 10, 0.5, 1e308, 1e300))   # also rates at the edge of the double range
     # each tuning parameter that HAS a default is left to it now and then (all given / all default are two points of a
     # larger grid: defaults that depend on other parameters only show in the mixed cases)
     for k in ("c_grapa_0", "c_grapa_max", "c_grapa_grow", "c", "d", "f", "minsd", "rate_error_2") + (("lam",) if bet == "agrapa" else ()):
